@@ -146,6 +146,14 @@ def seekNode (to : SeekTo) : Nat → Node V → Stack V → Option (Stack V)
 /-- `BTreeIterState::seek` / `seek_to_last`: clear the stack, `Node::seek` from the root. -/
 def seekC (t : Tree V) (to : SeekTo) : Option (Stack V) := seekNode to t.depth t.root []
 
+/-- the `SeekTo` of the re-positioning in `next_backend` (after the record id changed):
+    `At k -> Exclude k`, `Seeked k -> Include k`, `Start -> Include []`, `End -> Last`. -/
+def reseekTo : LastKey → SeekTo
+  | .at k => .excl k
+  | .seeked k => .incl k
+  | .start => .incl []
+  | .end_ => .last
+
 /-! ### call sequences on the cursor alone -/
 
 inductive CCall where
